@@ -20,19 +20,19 @@ PLAN = {
     "C01": dict(export="Export_C01", parts=[(None, dict(flags=ALL4, spellings=[{}, {"ints": True}]))],   # ints differ only in the thorough universe
                 mc=[("MC_C01", {"quick": "MC_C01_quick.cfg", "thorough": "MC_C01_thorough.cfg"})]),
     "C02": dict(export="Export_C02", parts=[(None, dict(flags=FF, spellings=[{"times": "body"}, {"times": "sib"}]))],
-                mc=[("MC_C02", {"quick": "MC_C02_quick.cfg", "thorough": "MC_C02_thorough.cfg"})]),
+                mc=[("MC_Compile", {"quick": "MC_Compile_times_quick.cfg", "thorough": "MC_Compile_times_thorough.cfg"}), ("MC_Compile", {"quick": "MC_Compile_control.cfg", "thorough": "MC_Compile_control.cfg"}, "must_fail"), ("MC_C02", {"quick": "MC_C02_quick.cfg", "thorough": "MC_C02_thorough.cfg"})]),
     "C03": dict(export="Export_C03", parts=[("i", dict(flags=FF)), ("o", dict(flags=[(False, False), (False, True)])),
                                             ("d", dict(flags=ALL4))],
-                mc=[("MC_C03", {"quick": "MC_C03_quick.cfg", "thorough": "MC_C03_thorough.cfg"})]),
+                mc=[("MC_Compile", {"quick": "MC_Compile_groups_quick.cfg", "thorough": "MC_Compile_groups_thorough.cfg"}), ("MC_C03", {"quick": "MC_C03_quick.cfg", "thorough": "MC_C03_thorough.cfg"})]),
     "C04": dict(export="Export_C04", parts=[("i", dict(flags=FF)), ("o", dict(flags=[(False, False), (False, True)]))],
-                mc=[("MC_C04", {"quick": "MC_C04_quick.cfg", "thorough": "MC_C04_thorough.cfg"})]),
+                mc=[("MC_Compile", {"quick": "MC_Compile_not_quick.cfg", "thorough": "MC_Compile_not_thorough.cfg"}), ("MC_C04", {"quick": "MC_C04_quick.cfg", "thorough": "MC_C04_thorough.cfg"})]),
     "C05": dict(export="Export_C05", parts=[("i", dict(flags=[(False, False), (True, True)])),
                                             ("o", dict(flags=[(False, False), (True, True)])),
                                             ("r", dict(flags=FF, spellings=[{}, {"upper_suffix": True}])),
                                             ("d", dict(flags=FF))],
-                mc=[("MC_C05", {"quick": "MC_C05_quick.cfg", "thorough": "MC_C05_thorough.cfg"})]),
+                mc=[("MC_Compile", {"quick": "MC_Compile_caps_quick.cfg", "thorough": "MC_Compile_caps_thorough.cfg"}), ("MC_Compile", {"quick": "MC_Compile_regs_quick.cfg", "thorough": "MC_Compile_regs_thorough.cfg"}), ("MC_C05", {"quick": "MC_C05_quick.cfg", "thorough": "MC_C05_thorough.cfg"})]),
     "C06": dict(export="Export_C06", parts=[(None, dict(flags=[(False, False), (True, True)], spellings=[{}, {"ints": True}]))],
-                mc=[("MC_C06", {"quick": "MC_C06_quick.cfg", "thorough": "MC_C06_thorough.cfg"})]),
+                mc=[("MC_Compile", {"quick": "MC_Compile_deref_quick.cfg", "thorough": "MC_Compile_deref_thorough.cfg"}), ("MC_C06", {"quick": "MC_C06_quick.cfg", "thorough": "MC_C06_thorough.cfg"})]),
     "C18": dict(export="Export_C18", parts=[(None, dict(flags=FF))],
                 mc=[("MC_C18", {"quick": "MC_C18_quick.cfg", "thorough": "MC_C18_thorough.cfg"})]),
     "C07": dict(export="Export_C07", parts=[("p", dict(flags=[(False, False), (True, True)])),
@@ -93,8 +93,27 @@ def run_part(report, prop, key, u, opts, tier):
         pairs = [[ri, li] for ri in range(len(job_rules)) for li in rnd.sample(range(len(job_listings)), min(per_rule, len(job_listings)))]
         report.notes.append(f"part {key or 'main'}: {len(pairs)} of {len(job_rules) * len(job_listings)} cases sampled (seed {seed()})")
         report.cov["sampled"] = True
-    obs = matchpipe.drive({"rules": job_rules, "listings": job_listings, "pairs": pairs,
+    obs = matchpipe.drive({"rules": job_rules, "listings": job_listings, "pairs": pairs, "want_regex": True,
                            "fresh": bool(opts.get("fresh"))}, tag=f"{prop}{key or ''}")
+    # binding of the compile-scheme model (JasmCompile): does the real compiler emit the text the model predicts?
+    # (never a violation: a harmless refactoring of the emitted text only shows up here as drift)
+    seen_rule, same, drift = set(), 0, []
+    for o in obs:
+        if o["r"] in seen_rule or "regex" not in o:
+            continue
+        seen_rule.add(o["r"])
+        pi, mfm, ofm, sp, rng = rules[o["r"]]
+        if opts.get("macros"):
+            continue
+        want = tlc_docs[pi]["rx"][("t" if mfm else "f") + ("t" if ofm else "f")]
+        if want == o["regex"]:
+            same += 1
+        elif len(drift) < 3:
+            drift.append({"rule": job_rules[o["r"]]["yaml"], "model": want, "code": o["regex"]})
+    cm = report.cov.setdefault("compile_model", {"rules_compared": 0, "same_text": 0, "drift_samples": []})
+    cm["rules_compared"] += len([r for r in seen_rule]) if not opts.get("macros") else 0
+    cm["same_text"] += same
+    cm["drift_samples"] = (cm["drift_samples"] + drift)[:3]
     if opts.get("modes_only"):
         # raw results only: no pattern semantics involved (nullable patterns, repeated addresses)
         cases = [{"p": rules[o["r"]][0] + 1, "l": o["l"] + 1, "mfm": False, "ofm": False, "outcome": o["outcome"],
@@ -194,10 +213,14 @@ def run(prop, tier):
         "harness/render.py prints abstract patterns/listings faithfully (YAML round trip checked on every rule)",
         "bounded universe: see spec/U_%s.tla and the Export_%s_%s.cfg constants" % (prop, prop, tier),
     ]
-    for mod, cfgs in plan.get("mc", []):
+    for entry in plan.get("mc", []):
+        mod, cfgs = entry[0], entry[1]
+        must_fail = len(entry) > 2
         st = tlc.run(mod, cfg=cfgs[tier], coverage=False)
-        report.add_tlc(st, f"design-level {mod} {cfgs[tier]}")
-        if st["violated"]:
+        report.add_tlc(st, f"design-level {mod} {cfgs[tier]}" + (" (control, must fail)" if must_fail else ""))
+        if must_fail and not st["violated"]:
+            raise MachineryError(f"non-vacuity control {mod} {cfgs[tier]} did not fail")
+        if st["violated"] and not must_fail:
             raise MachineryError(f"design-level model check {mod} failed: {st['violated']} -- the specification "
                                  f"is inconsistent, no verdict about the code\n" + st["stdout"][-3000:])
         tlc.cleanup(st)
